@@ -455,9 +455,9 @@ func (s *Server) attachClient(cl *Client, listener string) error {
 	s.hooks.OnSessionEstablish(cl, pk)
 
 	sessionPresent := s.inheritClientSession(pk, cl)
-	s.Clients.Add(cl) // [MQTT-4.1.0-1]
 
 	err = s.SendConnack(cl, code, sessionPresent, nil) // [MQTT-3.1.4-5] [MQTT-3.2.0-1] [MQTT-3.2.0-2] &[MQTT-3.14.0-1]
+	s.Clients.Add(cl)                                  // [MQTT-4.1.0-1] registered only now, so that no publish can be routed to the client ahead of its CONNACK
 	if err != nil {
 		return fmt.Errorf("ack connection packet: %w", err)
 	}
